@@ -1,6 +1,8 @@
 //! Observation helper for C03/C20 harnesses (see harness/peers.rs).
 //! Private names used: `SignedPeersStore { info_hashes }`.
 use super::*;
+#[allow(unused_imports)]
+use crate::verif_env::k as kani;
 
 impl SignedPeersStore {
     /// (number of announcements stored for `info_hash`, the most recent one)
